@@ -82,6 +82,7 @@ def run(ctx):
     from ..node import c13_drv
     for idx, rng in ctx.cases():
         c13_drv.ROOT_VIA_SYMLINK = idx % 4 == 1
+        c13_drv.RELATIVE_LINKS = idx % 4 == 2
         if c13_drv.ROOT_VIA_SYMLINK:
             ctx.count('cases_root_via_symlink')
         gen = engine.Gen(rng, ctx.tier)
